@@ -65,7 +65,7 @@ def analyse(ctx, funcs, bound=3000):
         if F.gc_kind() != "RCU":
             continue
         name = F.q.split("::")[-1]
-        if F.kind in ("ctor", "dtor") or name.startswith("unsafe_"):
+        if F.kind == "ctor" or name.startswith("unsafe_"):
             continue
         try:
             ps = PathSim(F, bound=bound).run()
@@ -81,6 +81,10 @@ def analyse(ctx, funcs, bound=3000):
                 if e.kind == "call" and e.q and e.node is not None:
                     key = (id(e.node), min(d[i], 1))
                     lst[key] = (e.node.get("m"), e.q, d[i], e.node)
+                elif e.kind == "dtor" and e.q and e.node is not None and e.node.get("m") and not RCU_LOCK.search(str((e.extra or (None, None))[1] or "")):
+                    # implicit destructor call of a local object (e.g. a position whose destructor disposes the unlinked chain)
+                    key = (id(e.node), min(d[i], 1))
+                    lst[key] = (e.node.get("m"), e.q, d[i], e.node)
         sites[F.m] = list(lst.values())
     locked = {m for m, v in beliefs.items() if v == "locked"}
     unlocked = {m for m, v in beliefs.items() if v == "unlocked"}
@@ -93,7 +97,9 @@ def analyse(ctx, funcs, bound=3000):
                     if cm in locked and m not in locked:
                         locked.add(m)
                         changed = True
-                    if (cm in unlocked or MUST_UNLOCKED.search(cq)) and m not in unlocked:
+                    # a function that itself asserts is_locked() states its contract: whatever it reaches that may need the unlocked state
+                    # (e.g. the destructor of a position whose chain was handed over to a raw_ptr) is conditionally dead there
+                    if (cm in unlocked or MUST_UNLOCKED.search(cq)) and m not in unlocked and beliefs.get(m) != "locked":
                         unlocked.add(m)
                         changed = True
     return beliefs, sites, fmap, locked, unlocked, skipped
@@ -127,8 +133,13 @@ def rule_rcu_discipline(ctx, rid, funcs, reason, contract=None, bound=3000):
     derived = sorted(set("%s|%s" % (fmap[m].q, fmap[m].file.split("/cds/")[-1]) for m in locked if m in fmap))
     if contract is not None:
         allowed = set(contract)
+        called = set(cm for lst in sites.values() for cm, cq, depth, node in lst)
         for m in locked:
             if m not in fmap:
+                continue
+            # only entry points (members no analysed function calls): an internal helper that relies on its caller's lock is fine as long as
+            # every chain of callers ends in a lock scope or in a documented 'RCU must be locked' entry point
+            if m in called:
                 continue
             F = fmap[m]
             key = "%s|%s" % (F.q, F.file.split("/cds/")[-1])
